@@ -69,7 +69,35 @@ class Ctx(object):
         self.n += 1
         self._case = case
         self._buckets = set()
+        self._kept = []
         reset_library_state()
+
+    # -- history helpers ----------------------------------------------------
+    def keep(self, label, obj):
+        """Remember an object the library returned together with a snapshot of its value; verify_kept() (run
+        automatically at the end of the case) reports it if later calls changed it (shared buffers, aliasing)."""
+        import copy as _copy
+        try:
+            snap = _copy.deepcopy(obj)
+        except Exception:
+            return obj
+        self._kept.append((label, obj, snap))
+        return obj
+
+    def verify_kept(self):
+        import numpy as _np
+        def same(a, b):
+            if isinstance(a, (list, tuple)):
+                return isinstance(b, (list, tuple)) and len(a) == len(b) and all(same(x, y) for x, y in zip(a, b))
+            try:
+                return bool(_np.array_equal(_np.asarray(a), _np.asarray(b), equal_nan=True))
+            except Exception:
+                return a == b
+        for label, obj, snap in self._kept:
+            if not same(obj, snap):
+                self.fail("returned-object-changed-later/" + label,
+                          "the object returned by %s was modified by a later library call (shared buffer / aliasing)" % label)
+        self._kept = []
 
     def event(self, label, k=1):
         self.counters[label] += k
@@ -166,6 +194,7 @@ def guarded_check(prop, case, ctx):
     ctx.begin(case)
     try:
         prop.check(case, ctx)
+        ctx.verify_kept()
     except HarnessError:
         raise
     except Exception as e:  # noqa
